@@ -194,6 +194,16 @@ theorem C11_model_refines_spec (line : String) : handle line = specCase line := 
       | build => exact ⟨⟨he, hob, hsub, hn⟩, rfl⟩
       | ob h => exact ⟨⟨he, rfl, hsub, hn⟩, rfl⟩
       | so h => exact ⟨⟨he, hob, rfl, hn⟩, rfl⟩
+      | race h =>
+        have hsubs1 : ∀ w', subscribe (observeOn m (some .h3)) ⟨some logNext⟩ .main w' =
+            (w'.emits (run st.t 0 w'.log.length).2 .h3).emit (.next (run st.t 0 w'.log.length).1) (st.sub.getD .h3) := by
+          intro w'
+          have e1 : subscribe (observeOn m (some .h3)) ⟨some logNext⟩ .main w'
+              = doSubscribe m ⟨some logNext⟩ (some .h3) m.subOn .main w' := rfl
+          rw [e1, C11_subscribe_once, hev, hsub]; rfl
+        simp only [implOp, specOp', hsubs1, drop_emits_emit, showEvs_kinds_next]
+        rw [← hn]
+        exact ⟨⟨he, rfl, rfl, by simp [Nat.add_assoc]⟩, rfl⟩
       | derive c =>
         refine ⟨⟨?_, rfl, rfl, hn⟩, rfl⟩
         show (flatMap m (kont c (fun x => den (.V 1) x))).effect = (den (.FL c st.t (.V 1)) 0).effect
